@@ -25,8 +25,11 @@ func specMoreThanThird(n, s int) bool { return 3*s > n }
 func runC19(r *Result, thorough bool) {
 	r.Rule = "exhaustive n=0..100000 through peers.PeerSet (struct with n distinct keys; real NewPeerSet up to nReal), " +
 		"compared with the generated Lean thresholds and with an independent search-based specification; " +
-		"plus random add/remove sequences on real PeerSets vs the Lean list model. non-trivial: n>=1 (each n distinct)"
+		"plus random add/remove sequences on real PeerSets vs the Lean list model; plus the decisions that use the thresholds: " +
+		"hashgraphs built against the fame election (split votes, coin rounds, counts of exactly the supermajority, a decider " +
+		"delivered late) on several real nodes, which must decide the same fame and deliver the same blocks. non-trivial: n>=1 (each n distinct)"
 	rng := rand.New(rand.NewSource(r.Seed))
+	defer c19Sites(r, thorough, rng)
 	maxN := 100000
 	nReal := 300
 	if thorough {
@@ -158,4 +161,26 @@ func joinComma(l []string) string {
 		s += x
 	}
 	return s
+}
+
+// c19Sites: the acceptance decisions that use the thresholds. Two supermajorities intersect in an
+// honest validator only if every site counts with the same threshold: a site that asks for more
+// (or less) than the least integer above 2n/3 lets two nodes decide differently.
+func c19Sites(r *Result, thorough bool, rng *rand.Rand) {
+	adoptOracles = map[string]bool{"C01": true, "C03": true}
+	defer func() { adoptOracles = map[string]bool{} }()
+	k := 6
+	if thorough {
+		k = 40
+	}
+	for i := 0; i < k; i++ {
+		sc, reached := buildAdversarialScenario(rng, thorough)
+		checkOracles(r, sc)
+		measure(r, sc)
+		r.Inc("quorum_site_scenarios", 1)
+		r.Inc("quorum_site_scenarios_with_a_late_decider", boolInt(sc.heldBack > 0))
+		r.Inc(fmt.Sprintf("adversarial_election_lasting_%d_rounds", reached), 1)
+		r.Compare(sc.cs[0])
+		sc.close()
+	}
 }
